@@ -293,7 +293,8 @@ class Cache:
             ):
                 return "left / full join with a table containing a constant column"
 
-            if any(self.cols[uid].ftype() == Ftype.WINDOW for uid in self.uuid_to_name.keys()):
+            # (also hidden columns: they stay usable after the join)
+            if any(col.ftype() == Ftype.WINDOW for col in self.cols.values()):
                 return "join with a table containing window function expression"
 
             if any(
